@@ -138,6 +138,17 @@ def run(shard, ctx):
                     except Exception as e:  # noqa: BLE001
                         ctx.fail("C05:%s.list_as_%s_raises.%s" % (c.custom, how, type(e).__name__), "%s with its descriptor lists given as %s raised %s: %s" % (c.name, how, type(e).__name__, e),
                                  {"gen": c.custom, "cmd": c.name, "args": a}, exc=e)
+            # the same dictionary as uniform records have it: optional keys present but neutral (sub_page_code 0 on a page_0 page, an
+            # empty session id on a format-00b TransportID, a zero extension on an 8-byte NAA designator)
+            if setname == c.sets[0] and i % 2 == 0:
+                padded = DO.fresh(a)
+                if add_neutral_keys(padded, rng):
+                    try:
+                        judge(ctx, c, setname, "neutral_optional_keys", a, exp, harness.construct(c, setname, padded))
+                        ctx.count("dictionaries_with_neutral_optional_keys")
+                    except Exception as e:  # noqa: BLE001
+                        ctx.fail("C05:%s.neutral_optional_keys_raise.%s" % (c.custom, type(e).__name__), "%s from a dictionary whose optional keys are present with neutral values raised %s: %s"
+                                 % (c.name, type(e).__name__, e), {"gen": c.custom, "cmd": c.name, "args": padded}, exc=e)
             # a copy job is looped: the caller's very dictionaries are handed to the library again (their byte strings mutable,
             # as the library's own parsers return them, in every other case)
             if setname == c.sets[0]:
@@ -171,6 +182,27 @@ def run(shard, ctx):
                 nt = judge(ctx, c, setname, "facade", a, exp, dev.calls[0][0])
                 ctx.case(("facade",) + rep, nt)
                 ctx.count("facade_lists_parsed")
+
+
+def add_neutral_keys(x, rng):
+    """in place; returns how many keys were added / removed"""
+    n = 0
+    if isinstance(x, dict):
+        if "page_code" in x and "spf" in x and not x["spf"] and "sub_page_code" not in x:
+            x["sub_page_code"] = 0
+            n += 1
+        if x.get("protocol_id") == 5 and not x.get("tpid_format") and "iscsi_initiator_session_id" not in x:
+            x["iscsi_initiator_session_id"] = rng.choice([None, ""])
+            n += 1
+        if x.get("naa") in (2, 3, 5) and "vendor_specific_identifier_extension" not in x:
+            x["vendor_specific_identifier_extension"] = 0
+            n += 1
+        for v in list(x.values()):
+            n += add_neutral_keys(v, rng)
+    elif isinstance(x, (list, tuple)):
+        for v in x:
+            n += add_neutral_keys(v, rng)
+    return n
 
 
 def sensed_flow(ctx, c, shard):
